@@ -703,6 +703,10 @@ func normaliseSnap(s string, lr *lifeRun) string {
 	f := strings.Fields(s)
 	for i, p := range f {
 		if strings.HasPrefix(p, "c") && strings.Contains(p, ":id=") {
+			// what the wiretap saw is judged by the property's predicate, not by the comparison
+			// with the model (which has stale writes, but no field that says one has happened)
+			p = strings.Replace(p, ",wire=plaintext-after-upgrade", "", 1)
+			f[i] = p
 			// frames received: compared with the model's count of frames sent, except where
 			// the count is not determined (client not reading or gone, bulk writer, after Stop:
 			// whether the notice of disconnection still gets out is a race)
